@@ -43,6 +43,51 @@ func c02ModelCtx(effect string) model.Model {
 	return m
 }
 
+// the same vector with the eft column FIRST (p = eft, id, flag): a column index of 0 is a column
+func c02RunEftFirst(c *Ctx, ef int, vec []int) {
+	tag := make([]string, len(vec))
+	rules := make([][]string, len(vec))
+	for i, k := range vec {
+		l := c02Letters[k]
+		tag[i] = l.tag
+		rules[i] = []string{l.e, fmt.Sprintf("r%d", i), l.m}
+	}
+	vs := strings.Join(tag, "")
+	if vs == "" {
+		vs = "-"
+	}
+	id := fmt.Sprintf("c02eft0.%s.%s", c02Effects[ef].tag, vs)
+	c.Case(id, c02Effects[ef].tag+" "+vs)
+	c.Count(fmt.Sprintf("eft-first.n=%d", len(vec)))
+	text := "[request_definition]\nr = x\n[policy_definition]\np = eft, id, flag\n[policy_effect]\ne = " + c02Effects[ef].expr + "\n[matchers]\nm = r.x == p.flag\n"
+	mm, err := model.NewModelFromString(text)
+	if err != nil {
+		panic(err)
+	}
+	e, err := casbin.NewEnforcer(mm)
+	if err != nil {
+		panic(err)
+	}
+	for _, r := range rules {
+		if ok, err := e.AddPolicy(r); !ok || err != nil {
+			panic(fmt.Sprint("AddPolicy ", r, ok, err))
+		}
+	}
+	d1, err1 := e.Enforce("1")
+	d2, ex, err2 := e.EnforceEx("1")
+	exi := -1
+	if len(ex) > 0 {
+		exi = -2
+		for i, r := range rules {
+			if len(ex) == 3 && r[0] == ex[0] && r[1] == ex[1] && r[2] == ex[2] {
+				exi = i
+			}
+		}
+	}
+	c.Obs(id, "enforce", fmt.Sprintf("dec=%s err=%s", B(d1), B(err1 != nil)))
+	c.Obs(id, "enforceex", fmt.Sprintf("dec=%s err=%s ex=%d", B(d2), B(err2 != nil), exi))
+}
+
 func c02RunCtx(c *Ctx, ef int, vec []int) {
 	tag := make([]string, len(vec))
 	rules := make([][]string, len(vec))
@@ -156,6 +201,9 @@ func init() {
 					c02Run(c, ef, vec)
 					if n <= 4 || c.Thorough() {
 						c02RunCtx(c, ef, vec)
+					}
+					if n <= 3 || c.Thorough() {
+						c02RunEftFirst(c, ef, vec)
 					}
 					i := 0
 					for i < n {
